@@ -184,12 +184,15 @@ impl Ctx {
                 let id = key_of(&t[3]);
                 match self.bind.get(&format!("enc:{}", id)) {
                     Some(b) => Ok(b.clone()),
-                    None => err(format!("unbound ciphertext {}", id)),
+                    None => err(format!("opaque: unbound ciphertext {}", id)),
                 }
             }
             "compmsg" => {
                 // <<"compmsg", D, Wplain, state, extra>>: DEFLATE is a trusted primitive,
                 // the container is rebuilt from the evaluated plaintext
+                if t[3].as_str() != Some("ok") {
+                    return err("opaque: corrupted compressed payload");
+                }
                 let d = self.digest(&t[1])?;
                 let plain = self.wire(&t[2])?;
                 let c = bc_components::Compressed::from_uncompressed_data(
